@@ -101,6 +101,11 @@ pub fn run(ctx: &mut Ctx) {
                     if t.bad_prevouts == 1 && nin < 2 {
                         t.bad_prevouts = 0;
                     }
+                    // the placeholder type 0xff now and then: the property does not say what it means,
+                    // so only the first clause (a used cache answers as a fresh one) is judged for it
+                    if ctx.rng.gen_range(0..12) == 0 {
+                        t.ty = elements::SchnorrSighashType::Reserved;
+                    }
                     Q::Tap(t)
                 }
                 8 => Q::WitnessMut(i, gen::bytes(&mut ctx.rng, 8)),
@@ -156,6 +161,12 @@ pub fn run(ctx: &mut Ctx) {
             ctx.check(warm == fresh, &format!("warm-cache!=fresh-cache/{}/{}/state{}", kind(q), qcls, st.map(|s| s.to_string()).unwrap_or("?".into())), d);
             // Ok/Err agreement with the independent algorithm on the current transaction (digest
             // equality with the reference is C03's job; here it only tells which queries are defined)
+            let reserved = matches!(q, Q::Tap(t) if t.ty == elements::SchnorrSighashType::Reserved);
+            if reserved {
+                ctx.count("queries/taproot-reserved-type(first clause only)");
+                ctx.shape((kind(q), qcls, st, step.min(8)));
+                continue;
+            }
             let refr = reference(&shadow, &prevs, q, &genesis);
             match (&warm, &refr) {
                 (Ok(_), Ok(_)) => {}
